@@ -84,7 +84,7 @@ pub fn options(dir: &Path, combine: u64) -> Options {
     }
 }
 
-/// rows of batch j: ids j*1000 + i; size 3 + (j mod 6); column x only in even batches
+/// rows of batch j: ids j*1000 + i; size 3 + (j mod 6); column x only in every third batch
 pub fn batch_size(j: usize) -> usize {
     3 + (j % 6)
 }
@@ -92,7 +92,7 @@ pub fn batch_ids(j: usize) -> Vec<i64> {
     (0..batch_size(j)).map(|i| (j * 1000 + i) as i64).collect()
 }
 pub fn batch_has_x(j: usize) -> bool {
-    j % 2 == 0
+    j % 3 == 0
 }
 pub fn batch_of_id(id: i64) -> usize {
     (id / 1000) as usize
@@ -231,7 +231,7 @@ impl Env {
         Env { ctl, rt, db }
     }
 
-    fn spawn<F: FnOnce() -> OpRes + Send + 'static>(&self, name: &str, role: Role, f: F) -> OpHandle {
+    pub fn spawn<F: FnOnce() -> OpRes + Send + 'static>(&self, name: &str, role: Role, f: F) -> OpHandle {
         let (tx, rx) = channel();
         let name_s = name.to_string();
         std::thread::Builder::new()
